@@ -568,7 +568,9 @@ class Trial:
         n = twin_ex.calls
         timing = rng.choice(["whole", "whole", "released", "late"]) if n > 1 else "whole"
         if timing == "released":
-            plan["release_at"] = rng.randrange(1, n)           # contention that goes away mid-step
+            # contention that goes away mid-step; positions past the fault-free count land inside
+            # whatever extra calls a retry loop makes while the lock is held
+            plan["release_at"] = rng.randrange(1, n + 10)
         elif timing == "late":
             plan["lock"] = "shared"
             plan["acquire_at"] = rng.randrange(1, n)           # a reader arrives mid-step: BUSY at COMMIT
@@ -1076,9 +1078,11 @@ def sweep(seed, directory, step, prefix_steps, spec=None, knobs=None, layers=("A
         for lock in LAYER_KINDS["L"]:
             plans.append({"layer": "L", "lock": lock})
             if twin_ex.calls > 2:
-                plans.append({"layer": "L", "lock": lock, "release_at": 1})
-                plans.append({"layer": "L", "lock": lock, "release_at": twin_ex.calls // 2})
-                plans.append({"layer": "L", "lock": lock, "release_at": twin_ex.calls - 1})
+                n_calls = twin_ex.calls
+                spread = {1, 2, 3, n_calls // 4, n_calls // 2, (3 * n_calls) // 4, n_calls - 2, n_calls - 1,
+                          n_calls, n_calls + 1, n_calls + 2, n_calls + 4, n_calls + 8, n_calls + 15}
+                for k in sorted(x for x in spread if x >= 1):
+                    plans.append({"layer": "L", "lock": lock, "release_at": k})
         if twin_ex.calls > 2:
             for k in (1, twin_ex.calls // 2, twin_ex.calls - 1):
                 plans.append({"layer": "L", "lock": "shared", "acquire_at": k})
